@@ -115,10 +115,10 @@ def _groebner_prove(eqs, goal, nonzero=()):
     goal = sp.expand(S.numden(goal)[0])
     if goal == 0:
         return True, 'normal-form'
-    eqs = [sp.expand(e) for e in eqs]
     eqs = [e for e in eqs if e != 0]
     idx = _connected(goal.free_symbols, eqs)
-    eqs = [eqs[i] for i in idx]
+    eqs = [sp.expand(S.numden(eqs[i])[0]) for i in idx]     # only the relevant hypotheses are normalised
+    eqs = [e for e in eqs if e != 0]
     if not eqs:
         return False, 'no-hypotheses remainder=%s' % str(goal)[:200]
     syms = sorted(set().union(*[e.free_symbols for e in eqs]) | goal.free_symbols, key=lambda s: s.name)
